@@ -1,12 +1,12 @@
 SPECIFICATION Spec
 CONSTANTS
-  Node = {1, 2, 3}
+  Node = {1, 2}
   Weaken = {}
-  MCCl <- ClSnap
+  MCCl <- ClReads
   PszSet <- PszF
   CCSet <- NoCCsF
-  Actors <- ActorsSnap
-  Bound <- BoundSnap
+  Actors <- ActorsReads1
+  Bound <- BoundReads1
 INVARIANTS
   C01_CommittedStable
   C01_AppliedAgree
